@@ -230,8 +230,8 @@ pub fn checks() -> Vec<Box<dyn Check>> {
 pub fn run(ctx: &Ctx) -> i32 {
     let parts = vec![
         crate::corpus_part(ctx, &checks()),
-        run_pbt(ctx, &Goto, ctx.n(6_000, 120_000)),
-        run_pbt(ctx, &Elsewhere, ctx.n(3_000, 60_000)),
+        run_pbt(ctx, &Goto, ctx.n(20_000, 300_000)),
+        run_pbt(ctx, &Elsewhere, ctx.n(6_000, 100_000)),
     ];
     finish(
         ctx,
